@@ -8,10 +8,11 @@ use serde_json::{Value, json};
 
 pub static PROP: Prop = Prop {
     id: "C14",
-    rule: "(a) histories of 5-40 operations over <= 6 variables decoded from a proptest choice vector: list / map / tuple / nested literals, aliasing by assignment, by storing inside another container, by passing to a mutating function and by capture in a mutating closure; every mutating and non-mutating function of list (push, pop, insert, remove, clear, extend, fill, resize, retain, reverse, sort, swap, transform, first, last, get, contains, is_empty, to_tuple), map (insert, remove, clear, extend, sort, get, keys, values, get_index, contains_key, update) and tuple; index and slice reads; index / slice / field assignment; `+`; copy; deep_copy; attempted mutation of tuples, strings and ranges; all variables are printed after every step and the history is compared with an abstract heap (cells with identity) in the reference interpreter. (b) laws over a 50-value boundary pool: all ordered pairs (== reflexive on NaN-free data and symmetric, != its negation, exactly one of < == > on numbers and on strings, <= / >= consistent) and all triples of numbers and of strings (transitivity of < and ==). (c) map-key identity: all pairs of hashable pool values x map paddings {0, 1, 8, 40}: contains_key(k2) after insert(k1) <=> k1 == k2, inserting both yields one entry <=> k1 == k2, independent of padding. (d) sorting: all lists of length 0..4 and sampled lists of length 5..7 over numbers, strings, mixed int / float and duplicates through list.sort, sort with key, map.sort: the output is an ordered permutation. Non-trivial: (a) an alias exists when a mutation happens; (b)-(d) every pair / triple / list counts once.",
+    rule: "(a) histories of 5-40 operations over <= 6 variables decoded from a proptest choice vector: list / map / tuple / nested literals, aliasing by assignment, by storing inside another container, by passing to a mutating function and by capture in a mutating closure; every mutating and non-mutating function of list (push, pop, insert, remove, clear, extend, fill, resize, retain, reverse, sort, swap, transform, first, last, get, contains, is_empty, to_tuple), map (insert, remove, clear, extend, sort, get, keys, values, get_index, contains_key, update) and tuple; index and slice reads; index / slice / field assignment; `+`; copy; deep_copy; attempted mutation of tuples, strings and ranges; all variables are printed after every step and the history is compared with an abstract heap (cells with identity) in the reference interpreter. (b) laws over a 56-value boundary pool: all ordered pairs (== reflexive on NaN-free data and symmetric and equal to the structural equality of the two literals computed by the harness (type, length, element-wise, maps by key set and values), != its negation, exactly one of < == > on numbers and on strings, <= / >= consistent) and all triples of numbers and of strings (transitivity of < and ==). (c) map-key identity: all pairs of hashable pool values x map paddings {0, 1, 8, 40}: contains_key(k2) after insert(k1) <=> k1 == k2, inserting both yields one entry <=> k1 == k2, independent of padding. (d) sorting: all lists of length 0..4 and sampled lists of length 5..7 over numbers, strings, mixed int / float and duplicates through list.sort, sort with key, map.sort: the output is an ordered permutation; and all lists of length 0..4 (thorough 0..5) over values that may be incomparable (numbers, strings, null, a tuple): whether `sort` succeeds or throws, an alias of the list still holds exactly the elements it held before. Non-trivial: (a) an alias exists when a mutation happens; (b)-(d) every pair / triple / list counts once.",
     assumptions: &[
         "known findings keyed by shape: C14-key-hash (an integer and the equal float as map keys), C14-order-2p53 (mixed int/float triples beyond 2^53)",
         "cyclic containers, negative indices and slice assignment beyond the list are not judged",
+        "a sort that throws (incomparable elements) is read as leaving a permutation of the input behind: the statement speaks of sorting as a permutation and of lists as shared, so a failed sort must not lose or invent elements",
     ],
     shards: |_| 14,
     run_shard,
@@ -359,7 +360,7 @@ fn eval_history(prog: &[E], nontrivial: bool) -> Eval {
 // ---------------------------------------------------------------------------------------------
 // (b) laws over a value pool
 
-pub const POOL: [(&str, char); 50] = [
+pub const POOL: [(&str, char); 56] = [
     ("0", 'n'), ("1", 'n'), ("-1", 'n'), ("2", 'n'), ("2147483648", 'n'), ("9007199254740991", 'n'), ("9007199254740992", 'n'), ("9007199254740993", 'n'), ("9223372036854775807", 'n'), ("(-9223372036854775807 - 1)", 'n'),
     ("0.0", 'n'), ("-0.0", 'n'), ("1.0", 'n'), ("1.5", 'n'), ("0.5", 'n'), ("-1.5", 'n'), ("9007199254740992.0", 'n'), ("1.0e300", 'n'), ("(1.0 / 0.0)", 'n'), ("2.0", 'n'),
     ("-1.0", 'n'), ("-2", 'n'), ("-2.0", 'n'), ("-9223372036854775808.0", 'n'),
@@ -369,6 +370,7 @@ pub const POOL: [(&str, char); 50] = [
     ("(1, 2)", 'o'), ("(1, 2.0)", 'o'), ("('a',)", 'o'), ("()", 'o'), ("(1, (2, 3))", 'o'), ("(1, -2)", 'o'), ("(1, -2.0)", 'o'),
     ("[1, 2]", 'o'), ("[1, 2.0]", 'o'), ("[]", 'o'),
     ("{a: 1}", 'o'), ("{a: 1.0}", 'o'), ("{}", 'o'),
+    ("{a: null}", 'o'), ("{b: null}", 'o'), ("{a: null, b: 1}", 'o'), ("{c: 5, b: 1}", 'o'), ("[1, [2, {a: null}]]", 'o'), ("[1, [2, {b: null}]]", 'o'),
 ];
 
 fn is_big_int(text: &str) -> bool {
@@ -397,6 +399,189 @@ fn cmp_script(a: &str, b: &str) -> String {
     s
 }
 
+
+// structural equality oracle for the pool literals ---------------------------------------------
+
+#[derive(Clone, Debug, PartialEq)]
+enum Lit {
+    Int(i64),
+    Float(f64),
+    Str(String),
+    Null,
+    Bool(bool),
+    Range(String),
+    Tuple(Vec<Lit>),
+    List(Vec<Lit>),
+    Map(Vec<(String, Lit)>),
+}
+
+/// parses the small literal grammar of the pool; None for anything else
+fn parse_lit(text: &str) -> Option<Lit> {
+    fn skip(b: &[u8], i: &mut usize) {
+        while *i < b.len() && b[*i] == b' ' {
+            *i += 1;
+        }
+    }
+    fn items(b: &[u8], i: &mut usize, close: u8) -> Option<(Vec<Lit>, bool)> {
+        let mut v = vec![];
+        let mut trailing = false;
+        loop {
+            skip(b, i);
+            if *i < b.len() && b[*i] == close {
+                *i += 1;
+                return Some((v, trailing));
+            }
+            v.push(value(b, i)?);
+            trailing = false;
+            skip(b, i);
+            if *i < b.len() && b[*i] == b',' {
+                *i += 1;
+                trailing = true;
+            }
+        }
+    }
+    fn value(b: &[u8], i: &mut usize) -> Option<Lit> {
+        skip(b, i);
+        let c = *b.get(*i)?;
+        match c {
+            b'\'' => {
+                let start = *i + 1;
+                let end = start + b[start..].iter().position(|x| *x == b'\'')?;
+                *i = end + 1;
+                Some(Lit::Str(String::from_utf8(b[start..end].to_vec()).ok()?))
+            }
+            b'[' => {
+                *i += 1;
+                Some(Lit::List(items(b, i, b']')?.0))
+            }
+            b'{' => {
+                *i += 1;
+                let mut m = vec![];
+                loop {
+                    skip(b, i);
+                    if b.get(*i) == Some(&b'}') {
+                        *i += 1;
+                        return Some(Lit::Map(m));
+                    }
+                    let start = *i;
+                    while *i < b.len() && b[*i].is_ascii_alphanumeric() {
+                        *i += 1;
+                    }
+                    let k = String::from_utf8(b[start..*i].to_vec()).ok()?;
+                    skip(b, i);
+                    if b.get(*i) != Some(&b':') {
+                        return None;
+                    }
+                    *i += 1;
+                    m.push((k, value(b, i)?));
+                    skip(b, i);
+                    if b.get(*i) == Some(&b',') {
+                        *i += 1;
+                    }
+                }
+            }
+            b'(' => {
+                let rest = std::str::from_utf8(&b[*i..]).ok()?;
+                let close = rest.find(')')?;
+                if rest[..close].contains("..") && !rest[1..close].contains('(') {
+                    *i += close + 1;
+                    return Some(Lit::Range(rest[..=close].to_string()));
+                }
+                *i += 1;
+                let (v, trailing) = items(b, i, b')')?;
+                if v.len() == 1 && !trailing {
+                    return None; // a parenthesised expression, not a tuple
+                }
+                Some(Lit::Tuple(v))
+            }
+            _ => {
+                let start = *i;
+                while *i < b.len() && (b[*i].is_ascii_alphanumeric() || matches!(b[*i], b'.' | b'-' | b'+')) {
+                    *i += 1;
+                }
+                let t = std::str::from_utf8(&b[start..*i]).ok()?;
+                match t {
+                    "null" => Some(Lit::Null),
+                    "true" => Some(Lit::Bool(true)),
+                    "false" => Some(Lit::Bool(false)),
+                    _ if t.contains('.') || t.contains('e') => t.parse::<f64>().ok().map(Lit::Float),
+                    _ => t.parse::<i64>().ok().map(Lit::Int),
+                }
+            }
+        }
+    }
+    let b = text.as_bytes();
+    let mut i = 0;
+    let v = value(b, &mut i)?;
+    skip(b, &mut i);
+    if i == b.len() { Some(v) } else { None }
+}
+
+/// structural equality as the guide describes it; None where it is not defined (ranges written differently,
+/// integers beyond 2^53 against floats: known finding C14-order-2p53)
+fn lit_eq(a: &Lit, b: &Lit) -> Option<bool> {
+    Some(match (a, b) {
+        (Lit::Int(x), Lit::Int(y)) => x == y,
+        (Lit::Float(x), Lit::Float(y)) => x == y,
+        (Lit::Int(x), Lit::Float(y)) | (Lit::Float(y), Lit::Int(x)) => {
+            if x.unsigned_abs() > (1u64 << 53) {
+                return None;
+            }
+            *x as f64 == *y
+        }
+        (Lit::Str(x), Lit::Str(y)) => x == y,
+        (Lit::Null, Lit::Null) => true,
+        (Lit::Bool(x), Lit::Bool(y)) => x == y,
+        (Lit::Range(x), Lit::Range(y)) => {
+            if x == y {
+                true
+            } else {
+                return None;
+            }
+        }
+        (Lit::Tuple(x), Lit::Tuple(y)) | (Lit::List(x), Lit::List(y)) => {
+            if x.len() != y.len() {
+                false
+            } else {
+                let mut all = true;
+                for (p, q) in x.iter().zip(y.iter()) {
+                    match lit_eq(p, q) {
+                        Some(true) => {}
+                        Some(false) => return Some(false),
+                        None => all = false,
+                    }
+                }
+                if !all {
+                    return None;
+                }
+                true
+            }
+        }
+        (Lit::Map(x), Lit::Map(y)) => {
+            if x.len() != y.len() {
+                false
+            } else {
+                let mut all = true;
+                for (k, p) in x {
+                    match y.iter().find(|(k2, _)| k2 == k) {
+                        None => return Some(false),
+                        Some((_, q)) => match lit_eq(p, q) {
+                            Some(true) => {}
+                            Some(false) => return Some(false),
+                            None => all = false,
+                        },
+                    }
+                }
+                if !all {
+                    return None;
+                }
+                true
+            }
+        }
+        _ => false,
+    })
+}
+
 fn eval_pair(i: usize, j: usize) -> Eval {
     let (a, ka) = POOL[i];
     let (b, kb) = POOL[j];
@@ -421,6 +606,16 @@ fn eval_pair(i: usize, j: usize) -> Eval {
     if fwd[0] != bwd[0] {
         ev.fail = fail("symmetric", "a == b differs from b == a".into());
         return ev;
+    }
+    // `==` compares structurally
+    if let (Some(la), Some(lb)) = (parse_lit(a), parse_lit(b)) {
+        if let Some(want) = lit_eq(&la, &lb) {
+            ev.classes.push("structural-equality-judged");
+            if fwd[0] != want.to_string() {
+                ev.fail = fail("structural", format!("a == b is {}, structurally the values are {}", fwd[0], if want { "equal" } else { "different" }));
+                return ev;
+            }
+        }
     }
     if fwd[0] == "ERR" || fwd[1] == "ERR" || t(&fwd[0]) == t(&fwd[1]) {
         ev.fail = fail("negation", "a != b is not the negation of a == b".into());
@@ -542,6 +737,34 @@ fn eval_sort(items: &[&str], variant: usize) -> Eval {
         Ok(l) if l.len() == 4 => {
             if l[0] != "true" || l[1] != "true" || l[2] != "true" {
                 ev.fail = Some(Fail::new("c14:sort", format!("sorting {list} (variant {variant}) gave {}: same size {}, ordered {}, permutation {}", l[3], l[0], l[1], l[2])));
+            }
+        }
+        other => ev.fail = Some(Fail::new("c14:sort-script", format!("{list} variant {variant}: {other:?}"))),
+    }
+    ev
+}
+
+
+const SORT_MIXED: [&str; 6] = ["1", "'a'", "2", "null", "'b'", "(1, 2)"];
+
+/// a sort over values that may not be comparable: whether it succeeds or fails, the list (seen through an
+/// alias) still holds exactly the elements it held before
+fn eval_sort_mixed(items: &[&str], variant: usize) -> Eval {
+    let list = format!("[{}]", items.join(", "));
+    let call = match variant {
+        0 => "l.sort()",
+        1 => "l.sort |x| x",
+        _ => "l.to_tuple().sort_copy()",
+    };
+    let s = format!(
+        "l = {list}\nalias = l\norig = copy l\nr = try\n  {call}\n  'ok'\ncatch _\n  'ERR'\nprint r\nprint size(alias) == size(orig)\nperm = true\nfor x in orig\n  co = orig.keep(|y| y == x).count()\n  ca = alias.keep(|y| y == x).count()\n  if co != ca\n    perm = false\nprint perm\nprint alias\n"
+    );
+    let mut ev = Eval::pass(true).class("sorting-incomparable");
+    match run_lines(&s) {
+        Ok(l) if l.len() == 4 => {
+            ev.classes.push(if l[0] == "ok" { "sort-succeeded" } else { "sort-failed" });
+            if l[1] != "true" || l[2] != "true" {
+                ev.fail = Some(Fail::new("c14:sort-loses-elements", format!("`{call}` on {list} ({}) left {} behind: same size {}, same elements {}", l[0], l[3], l[1], l[2])));
             }
         }
         other => ev.fail = Some(Fail::new("c14:sort-script", format!("{list} variant {variant}: {other:?}"))),
@@ -700,6 +923,27 @@ fn run_shard(ctx: &mut Ctx) {
                 }
             }
         }
+        if name == "numbers" {
+            // incomparable elements: all lists up to the same length
+            let mut stack: Vec<Vec<usize>> = vec![vec![]];
+            while let Some(cur) = stack.pop() {
+                for variant in 0..3 {
+                    idx += 1;
+                    if ctx.mine(idx) {
+                        let items: Vec<&str> = cur.iter().map(|i| SORT_MIXED[*i]).collect();
+                        let case = json!({"kind": "sort-mixed", "items": items, "variant": variant});
+                        ctx.run_case(&case, || eval_sort_mixed(&items, variant));
+                    }
+                }
+                if cur.len() < max_full + 1 {
+                    for a in 0..SORT_MIXED.len() {
+                        let mut n = cur.clone();
+                        n.push(a);
+                        stack.push(n);
+                    }
+                }
+            }
+        }
         let n_long = ctx.tier.pick(300u64, 6000u64);
         for r in 0..n_long {
             idx += 1;
@@ -727,6 +971,11 @@ fn replay(case: &Value) -> Option<Fail> {
         "map-index" => eval_map_index(u("size")?, u("index")?, u("key")?).fail,
         "triple" => eval_triple(u("i")?, u("j")?, u("k")?).fail,
         "keys" => eval_keys(u("i")?, u("j")?).fail,
+        "sort-mixed" => {
+            let items: Vec<String> = serde_json::from_value(case["items"].clone()).ok()?;
+            let refs: Vec<&str> = items.iter().map(|s| s.as_str()).collect();
+            eval_sort_mixed(&refs, case["variant"].as_u64()? as usize).fail
+        }
         "sort" => {
             let items: Vec<String> = serde_json::from_value(case["items"].clone()).ok()?;
             let refs: Vec<&str> = items.iter().map(|s| s.as_str()).collect();
